@@ -424,6 +424,16 @@ def run(case):
             c.cmp(f"E={E}/tangent", "orthotropic linear elasticity vs orthotropic SVK tangent at F = I (via lame_converter_orthotropic)", AI, lo.hessian()[0][..., 0, 0], 1e-9)
             c.cmp(f"E={E}/stress-free", "orthotropic SVK stress at F = I", PI, np.zeros((3, 3)), 1e-12)
             c.trans += 3
+            # the documented strain exponent k (family of Seth-Hill strains): every member has the same linearisation, so the
+            # tangent at F = I is the orthotropic linear-elastic one for every k (eigenvalue regularisation of the AD back end
+            # at the triple eigenvalue of C = I: 1e-7 relative measured, allowance 1e-6); r3 given or derived
+            for k_ in (1, 0, -2, 3, 0.5):
+                for r3_ in (None, [0.0, 0.0, 1.0]):
+                    svk_k = fem.Hyperelastic(C.saint_venant_kirchhoff_orthotropic, mu=mu, lmbda=lmbda, r1=[1.0, 0.0, 0.0], r2=[0.0, 1.0, 0.0], r3=r3_, k=k_)
+                    AIk, PIk = tangent_at_I(svk_k)
+                    c.cmp(f"E={E}/k={k_}/r3={'given' if r3_ else 'derived'}/tangent", "orthotropic linear elasticity vs orthotropic SVK (Seth-Hill exponent k) tangent at F = I", AIk, lo.hessian()[0][..., 0, 0], 1e-6)
+                    c.cmp(f"E={E}/k={k_}/r3={'given' if r3_ else 'derived'}/stress-free", "orthotropic SVK (Seth-Hill exponent k) stress at F = I", 1 + PIk / np.abs(AIk).max(), np.ones((3, 3)), 1e-6)
+                    c.trans += 2
             # the same constants in every container a caller may keep them in (lists, tuples, float64 / float32 / integer-free
             # arrays), shared between the linear law and the converter, in both orders of use and with the converter called
             # twice: the caller's containers keep their values and both laws keep agreeing with the reference tangent
@@ -447,6 +457,17 @@ def run(case):
                     c.cmp(f"E={E}/{clab}/{order_}/converter-twice/lmbda", "second conversion of the same containers", np.asarray(lm2[0], float), np.asarray(lm1[0], float), 1e-12)
                     c.cmp(f"E={E}/{clab}/{order_}/converter-twice/mu", "second conversion of the same containers", np.asarray(lm2[1], float), np.asarray(lm1[1], float), 1e-12)
                     c.cmp(f"E={E}/{clab}/{order_}/converter/lmbda", "Lame parameters from another container type", np.asarray(lm1[0], float), np.asarray(lmbda, float), tl)
+        # isotropic constants in the orthotropic SVK energy = the isotropic SVK energy (same model offered twice), for every
+        # strain exponent, any orthonormal triad and general deformations of the lattice
+        rng_ = np.random.default_rng(1200 + seed)
+        Gs = np.eye(3)[:, :, None, None] + 0.25 * (rng_.random((3, 3, 6, 1)) - 0.5)
+        for k_ in (2, 1, 0, -2, 3, 0.5):
+            for tlab, R_ in (("axes", np.eye(3)), ("rotated", fem.math.rotation_matrix(33, axis=2) @ fem.math.rotation_matrix(20, axis=0))):
+                iso = fem.Hyperelastic(C.saint_venant_kirchhoff, mu=1.3, lmbda=2.1, k=k_)
+                ort = fem.Hyperelastic(C.saint_venant_kirchhoff_orthotropic, mu=[1.3] * 3, lmbda=[2.1] * 6, r1=R_[:, 0], r2=R_[:, 1], r3=R_[:, 2], k=k_)
+                c.cmp(f"iso-parameters/k={k_}/{tlab}/stress", "orthotropic SVK with isotropic constants vs isotropic SVK: stress", ort.gradient([Gs, None])[0], iso.gradient([Gs, None])[0], 1e-9)
+                c.cmp(f"iso-parameters/k={k_}/{tlab}/tangent", "orthotropic SVK with isotropic constants vs isotropic SVK: elasticity", ort.hessian([Gs, None])[0], iso.hessian([Gs, None])[0], 1e-8)
+                c.trans += 2
         # isotropic limit equals LinearElastic
         Eiso, nuiso = 6.0, 0.25
         c.cmp("isotropic-limit", "orthotropic law with isotropic constants vs LinearElastic", fem.LinearElasticOrthotropic(E=[Eiso] * 3, nu=[nuiso] * 3, G=[Eiso / 2 / (1 + nuiso)] * 3).hessian()[0], fem.LinearElastic(E=Eiso, nu=nuiso).hessian()[0], 1e-12)
